@@ -51,6 +51,10 @@ THEOREMS = [
     'C02_convert_any_axis',
     'C02_C_K_any_axis_locus_sense',
     'C02_inadmissible_cards_raise',
+    'C02_P_three_points_thresholded',
+    'C02_P_three_points_band_deviation',
+    'C02_parameter_count_behaviour',
+    'C02_large_selector',
     'C02_number_items_spec',
     'C02_numbered_ids_select_regions',
     'C02_spec_sanity',
@@ -72,7 +76,7 @@ ASSUMPTIONS = [
     'cards carry no TR number (moved surfaces are property C04); hence the '
     'torus branch of convert_torus with a non-coordinate axis is not '
     'modelled (Err EUnmodelled, never reached by the tie)',
-    'the sheet selector of a K card is absent or of magnitude < 2 (int() '
+    'the sheet selector of a K card is absent or of magnitude < 9 (int() '
     'truncation is modelled there; a larger one is Err EUnmodelled); the '
     'theorems take it in {absent, 0, +1, -1}; t^2 >= 0',
     'three-point planes: orientation is proved when no tested quantity lies '
@@ -393,7 +397,8 @@ def gen_malformed(rng):
         mn, prm = gen_card(rng, rng.choice(['kx1', 'ky1', 'kz1', 'k/x1',
                                             'k/y1', 'k/z1']))
         prm[-1] = rng.choice([2.0, -2.0, 0.5, -0.0, 3.0, 1.5, -1.25, -0.5,
-                               1.999, -1.0, 1.0])
+                               1.999, -1.0, 1.0, 2.5, -3.75, 8.0, -8.5,
+                               8.999, 9.0, -9.0, 12.0, 4.0, -7.0])
     return mn, prm, fault
 
 
@@ -483,9 +488,9 @@ def coq_mcnp_out(out):
 
 def model_skips(mn, prm, coll_out):
     '''Inputs on which the model answers EUnmodelled by design: a sheet
-    selector of magnitude >= 2 (|int(nappe)| >= 2).'''
+    selector of magnitude >= 9 (|int(nappe)| >= 9).'''
     if coll_out[0] == 'ok':
-        return any(abs(side) > 1 for _, _, side in coll_out[1])
+        return any(abs(side) > 8 for _, _, side in coll_out[1])
     return False
 
 
